@@ -16,7 +16,7 @@ for n in "$@"; do
       [ $rc -le 1 ] && break
       cp "$out.log" "$out.$n.$c.err.log"
     done
-    git -C "$wt" checkout -- .
+    git -C "$wt" apply -R $d/patch.diff 2>/dev/null || { git -C "$wt" checkout -- .; git -C "$wt" clean -fdq; }
     sigs=$(grep -o "signature=[^ ]*" "$out.log" | sed 's/signature=//' | sort -u | head -4 | tr '\n' ' ')
     v="MISSED"; [ $rc -eq 1 ] && v="CAUGHT"; [ $rc -ge 2 ] && v="CHECK-ERROR"
     echo -e "$n\t$c\t$v\t$sigs\t$((t1-t0))" >> "$out"
